@@ -25,12 +25,38 @@
      error_not_early_refuted  without productivity the statement is false: S -> a S passes every
                      other checker, lr1.py reports no conflict, `a a a` is rejected at index 3 and
                      the language is empty (finding lr1-error-reported-late:unproductive-nonterminals).
-   The generator lr1.py is covered per instance: harness/props/c08.py applies the verified checkers
+   THE GENERATOR (LR/Gen.v, a Gallina model of lr1.Grammar: FIRST fixed point, item closure, goto,
+   canonical collection, table filling with conflict detection; diffed against lr1.py's own FIRST sets,
+   item sets, goto/action tables and conflict verdict on every random and corpus grammar of each run).
+   For ALL grammars, fuel values and results (no size bound):
+     first_sound / first_complete   the computed FIRST(alpha) is exactly {t terminal | alpha =>* t w}, and it
+                     contains epsilon exactly when alpha =>* empty (sentential-form derivations `sder`);
+                     first_complete_stable: the same from the checkable fixed-point condition first_stable;
+     first_fuel_enough / closure_fuel_enough / goto_fuel_enough   the FIRST computation never runs out of fuel
+                     with first_fuel rounds, item closure and goto never with closure_fuel;
+     closure_closed / closure_sound / closure_exact   the computed closure of an item is exactly the least
+                     set containing it and closed under "[A -> alpha . B beta, t], B -> gamma, u in FIRST(beta t)
+                     adds [B -> . gamma, u]";  goto_spec: the computed goto is exactly ALSU's GOTO;
+     items_closed    the computed collection starts with the closure of [S' -> . start, $] and every symbol
+                     after a dot in a state leads, through the goto table, to a state of the collection that
+                     is exactly the GOTO of that state;
+     generate_pass_check_complete   whenever the model generator reports neither a conflict nor the Accept
+                     clash, its tables pass the verified checker check_complete -- so for the model generator
+                     translation validation is a theorem:  generate_run_complete (every derivation tree of the
+                     start symbol is returned by `run` on the generated tables), generate_error_not_late,
+                     generate_clean_unambiguous (a clean verdict implies that the grammar is unambiguous: an
+                     ambiguous grammar is never reported conflict-free);
+     generate_nonvacuous   a non-trivial instance (corpus grammar nullable_chain_after_nonterminal).
+   Not proved for the model generator: that its clean tables also pass check_sound / check_early (accepted =>
+   derivable, error not early); these stay per-instance checks on lr1.py's tables.  No fuel bound is given for
+   the collection loop (its length is the number of LR(1) states; GenOutOfFuel 2 when the fuel is too small).
+   The generator lr1.py itself is covered per instance: harness/props/c08.py applies the verified checkers
    to the tables and item sets lr1.py builds on every run (translation validation, not a proof
    about lr1.py); "conflicts are reported whenever the construction is not
    deterministic" is covered through check_complete/unambiguous on conflict-free reports. *)
 From Coq Require Import NArith List.
 Require Import EmbossV.LR.Driver EmbossV.LR.Sound EmbossV.LR.Complete EmbossV.LR.Early EmbossV.LR.Examples.
+Require Import EmbossV.LR.Gen EmbossV.LR.GenCert EmbossV.LR.GenProofs EmbossV.LR.GenProofsItems EmbossV.LR.GenProofsLink EmbossV.LR.GenProofsFuel EmbossV.LR.GenProofsExample.
 Import ListNotations.
 
 Theorem run_sound : forall G T C fuel toks t,
@@ -105,3 +131,99 @@ Theorem error_not_early_refuted :
     run T fuel toks = Rejected c i tok st e /\
     ~ exists suffix t, derives G (g_start G) t 0%nat (firstn i toks ++ suffix).
 Proof. exact Examples.error_not_early_refuted. Qed.
+
+(* ---------------------------------------------------------------- the model generator LR/Gen.v *)
+
+Theorem first_sound : forall G fuel tab alpha,
+  first_table G fuel = Some tab ->
+  (forall t, In (Some t) (Gen.first_seq G tab alpha) -> starts_with G alpha t) /\
+  (In None (Gen.first_seq G tab alpha) -> nullable_str G alpha).
+Proof. exact GenProofs.first_sound. Qed.
+
+Theorem first_complete : forall G fuel tab alpha,
+  first_table G fuel = Some tab ->
+  (forall t, starts_with G alpha t -> In (Some t) (Gen.first_seq G tab alpha)) /\
+  (nullable_str G alpha -> In None (Gen.first_seq G tab alpha)).
+Proof. exact GenProofs.first_complete. Qed.
+
+Theorem first_complete_stable : forall G tab alpha,
+  first_stable G tab = true ->
+  (forall t, starts_with G alpha t -> In (Some t) (Gen.first_seq G tab alpha)) /\
+  (nullable_str G alpha -> In None (Gen.first_seq G tab alpha)).
+Proof. exact GenProofs.first_complete_stable. Qed.
+
+Theorem first_fuel_enough : forall G, first_table G (first_fuel G) <> None.
+Proof. exact GenProofs.first_fuel_enough. Qed.
+
+Theorem closure_fuel_enough : forall G ffuel tab root,
+  first_table G ffuel = Some tab -> closure_item G tab (closure_fuel G) root <> None.
+Proof. exact GenProofsFuel.closure_fuel_enough. Qed.
+
+Theorem goto_fuel_enough : forall G ffuel tab I X,
+  first_table G ffuel = Some tab -> goto G tab (closure_fuel G) I X <> None.
+Proof. exact GenProofsFuel.goto_fuel_enough. Qed.
+
+(* terminal-string derivations (Driver.derives) are sentential-form derivations *)
+Theorem derives_sder : forall G,
+  (forall X t i w, derives G X t i w -> sder G X w) /\
+  (forall Xs ts i w, derives_list G Xs ts i w -> sder_list G Xs w).
+Proof. exact GenProofs.derives_sder. Qed.
+
+Theorem closure_closed : forall G ffuel tab cfuel root R,
+  first_table G ffuel = Some tab -> closure_item G tab cfuel root = Some R ->
+  In root R /\ closed_under_adds G R.
+Proof. exact GenProofsItems.closure_closed. Qed.
+
+Theorem closure_sound : forall G ffuel tab cfuel root R,
+  first_table G ffuel = Some tab -> closure_item G tab cfuel root = Some R ->
+  forall new, In new R <-> new = root \/ exists it, In it R /\ adds G it new.
+Proof. exact GenProofsItems.closure_sound. Qed.
+
+Theorem closure_exact : forall G ffuel tab cfuel root R,
+  first_table G ffuel = Some tab -> closure_item G tab cfuel root = Some R ->
+  forall x, In x R <-> in_closure G root x.
+Proof. exact GenProofsItems.closure_exact. Qed.
+
+Theorem goto_spec : forall G ffuel tab cfuel I X J,
+  first_table G ffuel = Some tab -> goto G tab cfuel I X = Some J ->
+  forall x, In x J <-> in_goto G I X x.
+Proof. exact GenProofsItems.goto_spec. Qed.
+
+Theorem items_closed : forall G ffuel tab eoi cfuel fuel states gotos,
+  first_table G ffuel = Some tab -> is_nonterminal G eoi = false ->
+  items G tab eoi cfuel fuel = Some (states, gotos) ->
+  (exists I0, nth_error states 0 = Some I0 /\ forall x, In x I0 <-> in_closure G (seed_item eoi) x) /\
+  (forall k I X, nth_error states k = Some I -> (exists it, In it I /\ next_sym G it = Some X) ->
+     exists row j J, nth_error gotos k = Some row /\ assoc X row = Some j /\
+                     nth_error states (N.to_nat j) = Some J /\ forall x, In x J <-> in_goto G I X x).
+Proof. exact GenProofsItems.items_closed. Qed.
+
+Theorem generate_pass_check_complete : forall G eoi sp ff cf sf r,
+  is_nonterminal G eoi = false ->
+  generate G eoi sp ff cf sf = GenOk r -> gen_clean r = true ->
+  check_complete G (g_tables r) (icert_of (g_states r)) (fcert_of G (g_first r)) = true.
+Proof. exact GenProofsLink.generate_pass_check_complete. Qed.
+
+Theorem generate_run_complete : forall G eoi sp ff cf sf r t toks,
+  is_nonterminal G eoi = false -> generate G eoi sp ff cf sf = GenOk r -> gen_clean r = true ->
+  derives G (g_start G) t 0%nat toks ->
+  exists n, forall fuel, (n <= fuel)%nat -> run (g_tables r) fuel toks = Accepted t.
+Proof. exact GenProofsLink.generate_run_complete. Qed.
+
+Theorem generate_error_not_late : forall G eoi sp ff cf sf r fuel toks c i tok st e,
+  is_nonterminal G eoi = false -> generate G eoi sp ff cf sf = GenOk r -> gen_clean r = true ->
+  run (g_tables r) fuel toks = Rejected c i tok st e ->
+  forall toks' t, firstn (S i) toks' = firstn (S i) toks -> ~ derives G (g_start G) t 0%nat toks'.
+Proof. exact GenProofsLink.generate_error_not_late. Qed.
+
+Theorem generate_clean_unambiguous : forall G eoi sp ff cf sf r t1 t2 toks,
+  is_nonterminal G eoi = false -> generate G eoi sp ff cf sf = GenOk r -> gen_clean r = true ->
+  derives G (g_start G) t1 0%nat toks -> derives G (g_start G) t2 0%nat toks -> t1 = t2.
+Proof. exact GenProofsLink.generate_clean_unambiguous. Qed.
+
+Theorem generate_nonvacuous :
+  exists G eoi sp ff cf sf r t toks,
+    is_nonterminal G eoi = false /\ generate G eoi sp ff cf sf = GenOk r /\ gen_clean r = true /\
+    (2 <= length (g_states r))%nat /\ derives G (g_start G) t 0%nat toks /\ toks <> [] /\
+    run (g_tables r) 100 toks = Accepted t.
+Proof. exact GenProofsExample.generate_nonvacuous. Qed.
